@@ -29,7 +29,7 @@ from ..recipes import nlpgen as NG
 from ..recipes import ref as R
 
 LEVEL = "exploration"
-BUDGET_S = {"quick": 85, "thorough": 1500}
+BUDGET_S = {"quick": 420, "thorough": 1500}
 N_RANDOM = {"quick": 32, "thorough": 900}
 NLP_METHODS = ["auto", "SLSQP", "trust-constr", "L-BFGS-B", "BFGS", "Nelder-Mead", "COBYLA", "Powell", "TNC", "CG"]
 LP_METHODS = ["auto", "linprog", "highs", "highs-ds", "highs-ipm", "SLSQP", "trust-constr"]
